@@ -149,7 +149,8 @@ func derivations(thorough bool, f func(name string, ss []string)) {
 				}
 				lists[h] = leaf
 				in := fill(t, lists, defW)
-				for _, pre := range [][]string{{"a", "<<F", "|"}, {"a", "<<F", "&&"}, {"a", "<<F", ";"}, {"{", "a", ";", "}", "<<F", "|"}} {
+				for _, pre := range [][]string{{"a", "<<F", "|"}, {"a", "<<F", "&&"}, {"a", "<<F", ";"}, {"{", "a", ";", "}", "<<F", "|"},
+					{"a", "<<F", "|", "a", "$(b\nc)", "|"}, {"a", "<<F", "&&", "a", "'q\né'", "&&"}, {"a", "<<F", "$(b\nc)", "|"}} {
 					f("DH", append(append([]string{}, pre...), in...))
 				}
 			}
